@@ -437,6 +437,128 @@ class _InlineGenExpLoops:
         return before[:defs[0]] + between + [new]
 
 
+class _FinditerToFindallSub:
+    """The one-pass spelling of "collect group 1 of every match and delete the matches":
+
+        A = []; K = []; P = 0
+        for M in RX.finditer(S):  K.append(S[P:M.start()]);  A.append(M.group(1));  P = M.end()
+        K.append(S[P:]);  T = "".join(K)
+
+    is `A = RX.findall(S); T = RX.sub("", S)` for a pattern with one group (K, P and M are used for nothing else)."""
+
+    def run(self, tree: ast.AST) -> ast.AST:
+        for fn in ast.walk(tree):
+            if isinstance(fn, (ast.FunctionDef, ast.AsyncFunctionDef)):
+                new = self._block(fn, fn.body)
+                if new is not None:
+                    fn.body = new
+        return tree
+
+    @staticmethod
+    def _is_empty_list(st: ast.stmt, name: Optional[str] = None) -> Optional[str]:
+        tgt = st.targets[0] if isinstance(st, ast.Assign) and len(st.targets) == 1 else st.target if isinstance(st, ast.AnnAssign) else None
+        val = getattr(st, "value", None)
+        if isinstance(tgt, ast.Name) and isinstance(val, ast.List) and not val.elts:
+            return tgt.id
+        return None
+
+    def _block(self, fn: ast.AST, body: List[ast.stmt]) -> Optional[List[ast.stmt]]:
+        for li, lp in enumerate(body):
+            if not (isinstance(lp, ast.For) and not lp.orelse and isinstance(lp.target, ast.Name) and isinstance(lp.iter, ast.Call)
+                    and isinstance(lp.iter.func, ast.Attribute) and lp.iter.func.attr == "finditer" and not lp.iter.keywords and len(lp.body) == 3):
+                continue
+            m = lp.target.id
+            call = lp.iter
+            if isinstance(call.func.value, ast.Name) and call.func.value.id == "re" and len(call.args) == 2:
+                rx, src, via_re = call.args[0], call.args[1], True
+            elif len(call.args) == 1:
+                rx, src, via_re = call.func.value, call.args[0], False
+            else:
+                continue
+            if not isinstance(src, ast.Name):
+                continue
+            S = src.id
+            A = K = P = None
+            k_idx = p_idx = None
+            ok = True
+            for i, st in enumerate(lp.body):
+                if isinstance(st, ast.Expr) and isinstance(st.value, ast.Call) and isinstance(st.value.func, ast.Attribute) and st.value.func.attr == "append" \
+                        and isinstance(st.value.func.value, ast.Name) and len(st.value.args) == 1 and not st.value.keywords:
+                    a0 = st.value.args[0]
+                    if ast.unparse(a0) == f"{m}.group(1)":
+                        A = st.value.func.value.id
+                    elif isinstance(a0, ast.Subscript) and isinstance(a0.value, ast.Name) and a0.value.id == S and isinstance(a0.slice, ast.Slice) \
+                            and isinstance(a0.slice.lower, ast.Name) and a0.slice.step is None and a0.slice.upper is not None and ast.unparse(a0.slice.upper) == f"{m}.start()":
+                        K, P, k_idx = st.value.func.value.id, a0.slice.lower.id, i
+                    else:
+                        ok = False
+                elif isinstance(st, ast.Assign) and len(st.targets) == 1 and isinstance(st.targets[0], ast.Name) and ast.unparse(st.value) == f"{m}.end()":
+                    p_name, p_idx = st.targets[0].id, i
+                else:
+                    ok = False
+            if not ok or A is None or K is None or p_idx is None or k_idx is None or p_name != P or p_idx < k_idx or len({A, K, P, S, m}) != 5:
+                continue
+            # before the loop: A = [], K = [], P = 0 (each bound once before, untouched in between)
+            init: Dict[str, int] = {}
+            for j, st in enumerate(body[:li]):
+                nm = self._is_empty_list(st)
+                if nm in (A, K):
+                    init[nm] = j
+                if isinstance(st, ast.Assign) and len(st.targets) == 1 and isinstance(st.targets[0], ast.Name) and st.targets[0].id == P \
+                        and isinstance(st.value, ast.Constant) and st.value.value == 0 and not isinstance(st.value.value, bool):
+                    init[P] = j
+            if set(init) != {A, K, P}:
+                continue
+            touched = False
+            for j, st in enumerate(body[:li]):
+                if j in init.values():
+                    continue
+                if any(isinstance(n, ast.Name) and n.id in (A, K, P) for n in ast.walk(st)):
+                    touched = True
+            # after the loop: K.append(S[P:]) then T = "".join(K); K, P, M used nowhere else
+            if touched or li + 1 >= len(body) or ast.unparse(body[li + 1]) != f"{K}.append({S}[{P}:])":
+                continue
+            join_at = None
+            for j in range(li + 2, len(body)):
+                st = body[j]
+                if isinstance(st, (ast.Assign, ast.AnnAssign)) and getattr(st, "value", None) is not None and ast.unparse(st.value) in (f"''.join({K})", f'"".join({K})'):
+                    join_at = j
+                    break
+                if any(isinstance(n, ast.Name) and n.id in (K, P, S) for n in ast.walk(st)):
+                    break
+            if join_at is None:
+                continue
+            uses = [n for n in ast.walk(fn) if isinstance(n, ast.Name) and n.id in (K, P, m)]
+            mine = [n for st in [body[init[K]], body[init[P]], lp, body[li + 1], body[join_at]] for n in ast.walk(st) if isinstance(n, ast.Name) and n.id in (K, P, m)]
+            if len(uses) != len(mine):
+                continue
+            import copy as _c
+            if via_re:
+                fa: ast.expr = ast.Call(ast.Attribute(ast.Name("re", ast.Load()), "findall", ast.Load()), [_c.deepcopy(rx), ast.Name(S, ast.Load())], [])
+                sb: ast.expr = ast.Call(ast.Attribute(ast.Name("re", ast.Load()), "sub", ast.Load()), [_c.deepcopy(rx), ast.Constant(""), ast.Name(S, ast.Load())], [])
+            else:
+                fa = ast.Call(ast.Attribute(_c.deepcopy(rx), "findall", ast.Load()), [ast.Name(S, ast.Load())], [])
+                sb = ast.Call(ast.Attribute(_c.deepcopy(rx), "sub", ast.Load()), [ast.Constant(""), ast.Name(S, ast.Load())], [])
+            out: List[ast.stmt] = []
+            for j, st in enumerate(body):
+                if j in (init[K], init[P], li + 1):
+                    continue
+                if j == init[A]:
+                    continue
+                if j == li:
+                    na = ast.Assign([ast.Name(A, ast.Store())], fa)
+                    ast.copy_location(na, lp)
+                    ast.fix_missing_locations(na)
+                    out.append(na)
+                    continue
+                if j == join_at:
+                    st.value = sb        # type: ignore[union-attr]
+                    ast.fix_missing_locations(st)
+                out.append(st)
+            return out
+        return None
+
+
 class _Rename(ast.NodeTransformer):
     def __init__(self, mapping: Dict[str, ast.expr]):
         self.mapping = mapping
@@ -678,6 +800,7 @@ class Module:
         except SyntaxError as e:  # pragma: no cover
             raise AnalysisError(f"{rel} does not parse: {e}")
         self.tree = _SplitTupleAssign().visit(self.tree)
+        self.tree = _FinditerToFindallSub().run(self.tree)
         self.tree = _DesugarEnumerate().visit(self.tree)
         self.tree = _InlineGenExpLoops().run(self.tree)
         self.tree = _DesugarQuantifiers().run(self.tree)
